@@ -20,6 +20,7 @@ func init() {
 }
 
 func runC20(c *Ctx) {
+	defer checkConfigGetters(c, "C20.R8", "GetSendDebugMessagesToClients", "GetUseLegacyErrorFormat")
 	c20R1(c)
 	c20R2(c)
 	c20R3(c)
